@@ -65,7 +65,11 @@ func copySkeletonRules(w *World, r *Report, a *cmdAnchors, f *ssa.Function, srcF
 	r.Check(sameLeaves(args[0], sk.destRead.Common().Args[0]), rWrite, key+":write-handle", w.instrPos(upd), "writes to the destination handle that was read", "the handle written is not the destination handle that was compared")
 	// now
 	sa := sk.srcRead.Common().Args
-	r.Check(sameLeaves(args[2], sa[len(sa)-1]), rWrite, key+":write-now", w.instrPos(upd), "writes at the clock value used for the reads", "the write uses a different clock value than the reads")
+	if len(args) >= 3 {
+		r.Check(sameLeaves(args[2], sa[len(sa)-1]), rWrite, key+":write-now", w.instrPos(upd), "writes at the clock value used for the reads", "the write uses a different clock value than the reads")
+	} else {
+		r.Violate(rWrite, key+":write-now", w.instrPos(upd), "the writer is not given the clock value used for the reads")
+	}
 	// what is written
 	allowed := []*ssa.Function{a.tslDiff}
 	if nanModes {
@@ -165,6 +169,11 @@ func rulesC08(w *World, r *Report) {
 	}
 	ruleC08R8(w, r, a)
 	ruleC05R7(w, r, "C05.R7")
+	r.Rule("C08.R9", "the batch writer stores every aligned point it is given (no value- or age-dependent skip inside archiveUpdateMany), so NaN points requested by -copy-nan clear the destination slot; the write happens at the reads' clock all the way down to UpdatePointsForArchive", 2)
+	ruleWriterWritesAll(w, r, "C08.R9")
+	if cp != nil {
+		ruleWriteClock(w, r, "C08.R9", a, cp)
+	}
 }
 
 func ruleC08R8(w *World, r *Report, a *cmdAnchors) {
@@ -208,6 +217,10 @@ func rulesC09(w *World, r *Report) {
 	}
 	ruleExitCode(w, r, "C09.R5")
 	rulePrintDiff(w, r, "C09.R6", a)
+	r.Rule("C09.R7", "the listing reaches its destination and a missing side is classified: finish() of the text-out writer runs on every path after the command body (also when the body returns the ErrDiffFound verdict); the not-exist protocol ends produce/recognise a bare os.ErrNotExist PathError; remote read functions pass errors on unwrapped", 9)
+	ruleFinishAlways(w, r, "C09.R7")
+	ruleNotExistProtocolEnds(w, r, "C09.R7")
+	ruleRemoteErrorsUnwrapped(w, r, "C09.R7")
 }
 
 func rulesC11(w *World, r *Report) {
@@ -239,6 +252,12 @@ func rulesC11(w *World, r *Report) {
 	ruleC05R7(w, r, "C05.R7")
 	ruleValueTables(w, r, "C10.R1", false, false, true)
 	ruleC08R8(w, r, a)
+	r.Rule("C11.R4", "sibling agreement: sum-copy writes the file sum-diff reads — both build the destination path from DestBase, itemToRelDir(item) and DestRelPath; the batch writer stores every point at the reads' clock", 3)
+	ruleDestPathAgreement(w, r, "C11.R4", a)
+	ruleWriterWritesAll(w, r, "C11.R4")
+	if sc := fn(w.Cmd, "SumCopyCommand.sumCopyItem"); sc != nil {
+		ruleWriteClock(w, r, "C11.R4", a, sc)
+	}
 }
 
 // ruleSumArgs: sumWhisperFile gets the command's SrcBase and SrcPattern and the item.
@@ -909,6 +928,9 @@ func rulesC10(w *World, r *Report) {
 		}
 	}
 	ruleGoroutines(w, r, "C17.R3")
+	r.Rule("C10.R5", "a pattern that matches nothing stays not-existing through a server: the not-exist protocol ends are intact and remote functions pass errors on unwrapped", 9)
+	ruleNotExistProtocolEnds(w, r, "C10.R5")
+	ruleRemoteErrorsUnwrapped(w, r, "C10.R5")
 }
 
 // indexPhis returns integer phis used as slice indices inside v's expression.
@@ -987,3 +1009,77 @@ func loopCheckDominates(w *World, check *ssa.Call, action ssa.Instruction) bool 
 }
 
 var _ = sort.Strings
+
+// ruleWriterWritesAll: archiveUpdateMany's write loop has no extra guards (shared with C06.R6).
+func ruleWriterWritesAll(w *World, r *Report, rule string) {
+	au := fn(w.Lib, "Whisper.archiveUpdateMany")
+	put := fn(w.Lib, "Whisper.putPointAt")
+	if au == nil || put == nil {
+		r.Undecided(rule, "archiveUpdateMany", "-", "not found")
+		return
+	}
+	n := 0
+	for _, c := range callsTo(au, put) {
+		n++
+		gs := blockGuards(w, c.Block())
+		r.Check(len(gs) == 0 && inLoopWith(c.Block()), rule, "archiveUpdateMany:writes-every-point", w.instrPos(c), "every aligned point is written", "archiveUpdateMany skips points unless "+strings.Join(gs, " && ")+": the command reports them as copied but the destination keeps its old value (e.g. NaN points of -copy-nan are never stored)")
+	}
+	if n == 0 {
+		r.Violate(rule, "archiveUpdateMany:writes-every-point", w.pos(au.Pos()), "archiveUpdateMany writes nothing")
+	}
+	// what is aligned and written is the batch it was handed, unfiltered
+	for _, c := range callsTo(au, fn(w.Lib, "ArchiveInfo.alignPoints")) {
+		e := newExprCtx(w).expr(c.Common().Args[1])
+		r.Check(e == "p1", rule, "archiveUpdateMany:aligns-whole-batch", w.instrPos(c), "aligns the batch it was given", "archiveUpdateMany aligns "+e+" instead of the batch it was given: points are dropped silently before they are written (the partition by age already happened in extractPoints)")
+	}
+	// alignPoints keeps every distinct slot (appends or overwrites the last)
+}
+
+// ruleWriteClock: the now reaching UpdatePointsForArchive below the item function is the reads' now.
+func ruleWriteClock(w *World, r *Report, rule string, a *cmdAnchors, f *ssa.Function) {
+	upa := fn(w.Lib, "Whisper.UpdatePointsForArchive")
+	var srcRead *ssa.Call
+	for _, c := range callsTo(f, a.readWhisperFile) {
+		srcRead = c
+	}
+	for _, c := range callsTo(f, a.sumWhisperFile) {
+		srcRead = c
+	}
+	if upa == nil || srcRead == nil {
+		r.Undecided(rule, funcName(f)+":write-clock", "-", "anchors not found")
+		return
+	}
+	found := w.findCallsBelow(f, func(c ssa.CallInstruction) bool { return c.Common().StaticCallee() == upa }, 2)
+	if len(found) == 0 {
+		r.Violate(rule, funcName(f)+":write-clock", w.pos(f.Pos()), "no UpdatePointsForArchive below the item function")
+		return
+	}
+	sa := srcRead.Common().Args
+	for _, fc := range found {
+		now := originThroughChain(fc.call.Common().Args[3], fc.chain)
+		r.Check(sameLeaves(now, sa[len(sa)-1]), rule, funcName(f)+":write-clock", w.instrPos(fc.call), "UpdatePointsForArchive runs at the clock value used for the reads", "UpdatePointsForArchive is called with now = "+newExprCtx(w).expr(now)+" instead of the clock value both files were read at: points near the retention edge are dropped at write time although they were diffed as in range")
+	}
+}
+
+// ruleDestPathAgreement: C11.R4
+func ruleDestPathAgreement(w *World, r *Report, rule string, a *cmdAnchors) {
+	sc := fn(w.Cmd, "SumCopyCommand.sumCopyItem")
+	sd := fn(w.Cmd, "SumDiffCommand.sumDiffItem")
+	if sc == nil || sd == nil {
+		r.Undecided(rule, "dest-path", "-", "not found")
+		return
+	}
+	var cp, dp string
+	for _, c := range callsTo(sc, a.openOrCreate) {
+		cp = newExprCtx(w).expr(c.Common().Args[0])
+	}
+	for _, c := range callsTo(sd, a.readWhisperFile) {
+		e := newExprCtx(w)
+		if strings.Contains(e.expr(c.Common().Args[0]), ".DestBase") {
+			dp = e.expr(c.Common().Args[0]) + " + " + e.expr(c.Common().Args[1])
+		}
+	}
+	okC := strings.Contains(cp, "p0.DestBase") && strings.Contains(cp, "cmd.itemToRelDir(p1)") && strings.Contains(cp, "p0.DestRelPath")
+	okD := strings.Contains(dp, "p0.DestBase") && strings.Contains(dp, "cmd.itemToRelDir(p1)") && strings.Contains(dp, "p0.DestRelPath")
+	r.Check(okC && okD, rule, "dest-path", w.pos(sc.Pos()), "both use DestBase/itemToRelDir(item)/DestRelPath", "sum-copy writes "+cp+" but sum-diff reads "+dp+": for items more than one directory deep the two commands address different files")
+}
